@@ -2,6 +2,16 @@
 HOOK_COMMITS = []
 NOT_APPLICABLE = {}
 CLAIMS = {
+    "C12": dict(
+        text="spec/FeShapes.tla computes, from the documented rank and type rules, the result descriptor (finite-element array or plain array, shape, or Error) of element-wise "
+        "ufuncs, @, dot, ddot, .T, reductions over every axis, Det/Inv/Trace/Transpose and coefficient broadcasting for every operand descriptor with Ne, nPg and tensor sizes "
+        "in {1,2,3} (all size coincidences) and ranks 0-2 (quick) / 0-4 (thorough); TLC checks the type rule on the table and enumerates it. Every TLC state is one implementation "
+        "test: arrays of those shapes are built, the operation is run (6 ufuncs for the element-wise case), exceptions must coincide with Error, type and shape with the "
+        "descriptor, and the values with explicit loops over (e, p) on plain arrays; Field objects on either side of the operators are compared with their arrays.",
+        note="Trusted: TLC, the transcription of the two documented rules, numpy on plain per-point slices as value oracle. Contracted axes have size > 1; both field operands share (Ne, nPg).",
+        technique="TLA+ rule table enumerated exhaustively by TLC, one implementation test per state (type, shape, values)",
+        design_ref="DESIGN.md 6/C12",
+    ),
     "C02": dict(
         text="spec/Spectrum.tla enumerates every (physics, dimension, element type, density, thickness) configuration - elasticity 2D/3D on the 15 surface/volume types, heat conduction on "
         "all 19 types incl. segments, Euler-Bernoulli and Timoshenko beams on SEG2..SEG5 in 1D/2D/3D (inclined members) - and states the expected attributes exactly: kernel dimension, "
